@@ -55,6 +55,7 @@ func vLineIf(k string, args []string) []*vSeg {
 	}
 	return []*vSeg{vLine(append([]string{k}, args...)...)}
 }
+
 // an appending option: in split mode its arguments may be spread over two lines (the documented
 // grammar allows repeating such options; the values accumulate)
 var vSplit *vRng
@@ -185,11 +186,11 @@ func vDurNs(d *vDur) int64 {
 }
 
 type vGen struct {
-	r    *vRng
-	big  bool // this configuration may use durations above 2^53 ns (global form only: Caddy's own JSONModuleObject, used for listener wrappers, goes through float64)
+	r          *vRng
+	big        bool // this configuration may use durations above 2^53 ns (global form only: Caddy's own JSONModuleObject, used for listener wrappers, goes through float64)
 	optShuffle bool // option lines inside module blocks are written in a random order
 	shuffled   int
-	full bool // this configuration may use the modules outside the Coq model (tls/http/quic matchers, tls handler, decimal rates)
+	full       bool // this configuration may use the modules outside the Coq model (tls/http/quic matchers, tls handler, decimal rates)
 }
 
 func (g *vGen) pick(l []string) string { return l[g.r.Intn(len(l))] }
@@ -401,6 +402,7 @@ func vCanon(v any, sb *strings.Builder) {
 		sb.WriteString(fmt.Sprintf("?%T", v))
 	}
 }
+
 // every integer replaced by its float64 rounding (to recognise a float64 round trip)
 func vFloatRound(v any) any {
 	switch x := v.(type) {
@@ -823,7 +825,7 @@ func (g *vGen) matcherLeaf0(kind string) *vLeaf {
 		return &vLeaf{name: "openvpn", seg: vBlock("openvpn", nil, ls),
 			js: jobj("modes", jstrs(modes), "ignore_crypto", ic, "ignore_timestamp", it, "group_key", jstr(gk),
 				"auth_digest", jstr(ad), "group_key_direction", jstr(dir)),
-			coq: fmt.Sprintf("MOpenvpn (OpenVPN %s %s %s %s %s %s None [] [])", cStrs(modes), cBool(ic), cBool(it), gkc, cOptStr(ad), cOptStr(dir)),
+			coq:      fmt.Sprintf("MOpenvpn (OpenVPN %s %s %s %s %s %s None [] [])", cStrs(modes), cBool(ic), cBool(it), gkc, cOptStr(ad), cOptStr(dir)),
 			modelled: true}
 	case "tls", "quic":
 		// tls.handshake_match matchers: sni, alpn, remote_ip, local_ip
